@@ -294,9 +294,39 @@ def build_entries():
     return E
 
 
+RUN_SECONDS = 30
+
+
+def limits():
+    """memory bombs (e.g. a huge memo index handed to a real unpickler) must fail fast, not swap"""
+    import resource
+    try:
+        with open("/proc/self/statm") as f:
+            vm_now = int(f.read().split()[0]) * os.sysconf("SC_PAGE_SIZE")
+        lim = vm_now + (3 << 30)
+        resource.setrlimit(resource.RLIMIT_AS, (lim, lim))
+    except Exception:
+        pass
+    try:
+        resource.setrlimit(resource.RLIMIT_CORE, (0, 0))
+    except Exception:
+        pass
+
+
+class RunTimeout(BaseException):
+    pass
+
+
+def on_alarm(signum, frame):
+    raise RunTimeout()
+
+
 def main():
+    import signal
     setup()
     entries = build_entries()
+    limits()
+    signal.signal(signal.SIGALRM, on_alarm)
     sys.addaudithook(hook)
     out = open(OUTP, "w")
     out.write(json.dumps({"hello": sorted(entries), "stdlib_list": os.path.dirname(
@@ -322,6 +352,7 @@ def main():
             out.write(json.dumps({"begin": [case["id"], name]}) + "\n")
             out.flush()
             with contextlib.redirect_stdout(so), contextlib.redirect_stderr(se):
+                signal.alarm(RUN_SECONDS)
                 Rec.on = True
                 try:
                     fn(data)
@@ -331,6 +362,7 @@ def main():
                         outcome = "blocked-by-monitor"
                 finally:
                     Rec.on = False
+                    signal.alarm(0)
             fs_after = fs_snapshot()
             new_mods = {}
             for m in sorted(set(sys.modules) - mods_before):
